@@ -46,9 +46,11 @@ PROBES = [
     ("[1,2,3].join(';') + '|' + [1,2,3].indexOf(2)", "1;2;3|1"),
 ]
 
-LOOP_TERMINALS = ("loop_while", "loop_cb", "loop_regex", "loop_eval", "loop_getter")
-REC_TERMINALS = ("rec_self", "rec_cb")
-OTHER_TERMINALS = ("none", "none", "throw_err", "throw_str", "type_error", "syntax", "host_raise", "sink_fail")
+LOOP_TERMINALS = ("loop_while", "loop_cb", "loop_regex", "loop_eval", "loop_getter", "loop_in_try", "loop_in_try_finally",
+                  "loop_cb_in_try")
+REC_TERMINALS = ("rec_self", "rec_cb", "rec_in_try")
+MIRRORED_TERMINALS = ("none", "throw_err", "throw_str", "type_error", "throw_in_try_finally")
+OTHER_TERMINALS = ("none", "none", "throw_err", "throw_str", "type_error", "throw_in_try_finally", "syntax", "host_raise", "sink_fail")
 
 TERMINAL_SRC = {
     "none": "",
@@ -60,6 +62,11 @@ TERMINAL_SRC = {
     "loop_regex": "while(true){ /(a+)+b/.test('aaaaaaaaaaaaaaaaaaaaaaaa'); }",
     "loop_eval": "eval('while(true){}');",
     "loop_getter": "({get x(){ while(true){} }}).x;",
+    "loop_in_try": "try { while(true){} } catch (e) { ack(99); }",
+    "loop_in_try_finally": "try { try { for(;;){} } finally { ack(98); } } catch (e2) { ack(97); }",
+    "loop_cb_in_try": "try { [1,2].map(function(){ try { while(true){} } catch (e3) {} }); } catch (e4) {}",
+    "rec_in_try": "try { (function rt(){ try { return 1 + rt(); } catch (e5) { return rt(); } })(); } catch (e6) {}",
+    "throw_in_try_finally": "try { throw new Error('inner'); } finally { gfin = 1; }",
     "rec_self": "(function rr(){ return 1 + rr(); })();",
     "rec_cb": "function rc(){ [1].forEach(rc); } rc();",
     "host_raise": "boom();",
@@ -86,8 +93,10 @@ def gen_effect(rng, vals):
         return {"e": "implicit", "name": name, "v": v}
     if r < 0.84:
         return {"e": "builtin", "slot": rng.choice(BSLOTS), "v": v}
-    if r < 0.92:
+    if r < 0.90:
         return {"e": "regex", "v": v}
+    if r < 0.95:
+        return {"e": "rxdef", "v": v}
     return {"e": "local", "name": rng.choice(LOCALS), "v": v}
 
 
@@ -109,6 +118,8 @@ def effect_src(e):
         return "rx = /a/g; rx.test('aaaaaa'); rx.test('aaaaaa');" if e["v"] % 2 else "rx = /a/g; rx.test('aaaaaa');"
     if k == "local":
         return "(function(){ var %s = %d; return %s; })();" % (e["name"], e["v"], e["name"])
+    if k == "rxdef":
+        return "rxb = /(a|b)*c/; rxc = new RegExp('(a|b)*c'); rxf = function(s){ return rxb.test(s); };"
     raise AssertionError(k)
 
 
@@ -122,6 +133,8 @@ def apply_effect(model, e):
         model["b"][e["slot"]] = e["v"]
     elif k == "regex":
         model["rx"] = 2 if e["v"] % 2 else 1
+    elif k == "rxdef":
+        model["rxdef"] = True
 
 
 def expected_observation(model):
@@ -188,6 +201,8 @@ def gen_op(rng, ctxs, vals, allow_reenter):
         return {"op": "busy_ok", "ctx": c, "iters": int(0.45 * cfg["T_work"] / 45)}
     if r < 0.36:
         return {"op": "probe", "ctx": c, "probe": rng.randrange(len(PROBES))}
+    if r < 0.44:
+        return {"op": "regex_reuse", "ctx": c, "stall": rng.choice((0.0, 0.5, 3.0))}
     effects = [gen_effect(rng, vals) for _ in range(rng.randrange(1, 5))]
     pool = list(OTHER_TERMINALS)
     if cfg["T_work"]:
@@ -251,6 +266,10 @@ class Sim:
                 return
             fl = self.inflight[-1]
             k = int(a[0])
+            if k >= 90:
+                # a script handler ran after the stop (the stop must not be catchable)
+                fl.setdefault("late", []).append(k)
+                return
             fl["acks"].append(k)
             if k < len(fl["op"]["effects"]):
                 e = fl["op"]["effects"][k]
@@ -301,6 +320,23 @@ class Sim:
                 self.bad("C12.leak", "a bounded eval needing about 45%% of the time limit ended in %s %s on context %d (time budget of an earlier eval carried over?)" % (
                     out["kind"], out.get("cls"), c), step)
             return
+        if kind == "regex_reuse":
+            # RegExp objects made by an earlier eval, used after the process was stalled for a
+            # while: their matches run under THIS eval's budget, not the old one
+            if not model.get("rxdef"):
+                return
+            if cfg["T_work"]:
+                W.S.mono_off += op["stall"] * cfg["T_work"] * W.S.tick
+                W.log("fault_fired", "stall_between_evals", op["stall"])
+            subj = json.dumps("ab" * 150 + "c")
+            src = "[rxb.test(%s), rxc.test(%s), rxf(%s), %s.replace(rxb, '').length]" % (subj, subj, subj, subj)
+            out = run_eval(ctx, src, cap)
+            tw = run_eval(twin, src, cap)
+            a = (out["kind"], out.get("value") if out["kind"] == "value" else out.get("cls"))
+            b = (tw["kind"], tw.get("value") if tw["kind"] == "value" else tw.get("cls"))
+            if a != b:
+                self.bad("C12.leak", "RegExp objects defined by an earlier eval: context %d gives %r, its fault-free twin %r (the time budget of an earlier eval carried over?)" % (c, a, b), step)
+            return
         if kind == "probe":
             src, exp = PROBES[op["probe"]]
             out = run_eval(ctx, src, cap)
@@ -334,6 +370,8 @@ class Sim:
         if not nested:
             self.nested_queue = []
         acked = len(fl["acks"])
+        if fl.get("late") and term in LOOP_TERMINALS + REC_TERMINALS:
+            self.bad("C12.recover", "script handlers %r ran after the limit error of terminal %s" % (fl["late"], term), step)
         if fl["acks"] != list(range(acked)):
             self.bad("C12.persist", "acks out of order: %r" % (fl["acks"],), step)
         n_eff = len(op["effects"])
@@ -341,6 +379,7 @@ class Sim:
         kind_out = out["kind"]
         ok_kinds = {
             "none": ("value",), "throw_err": ("js_error",), "throw_str": ("js_error",), "type_error": ("js_error",),
+            "throw_in_try_finally": ("js_error",),
             "syntax": ("js_syntax",), "host_raise": ("host_exc",), "sink_fail": ("host_exc",),
         }
         if term in LOOP_TERMINALS:
@@ -361,6 +400,14 @@ class Sim:
             n_committed = 0
         else:
             n_committed = acked
+        if term in MIRRORED_TERMINALS and not nested:
+            # the same script on the fault-free twin: a context that has been through errors must
+            # behave like one that has not (the effects are idempotent assignments)
+            tw = run_eval(twin, src, cap)
+            a = (kind_out, out.get("cls"), out.get("msg") if kind_out != "value" else out.get("value"))
+            b = (tw["kind"], tw.get("cls"), tw.get("msg") if tw["kind"] != "value" else tw.get("value"))
+            if a != b:
+                self.bad("C12.recover", "eval ending in %s: context %d gives %r, its fault-free twin gives %r" % (term, c, a, b), step)
         # (committed effects were applied to the model and the twin when they were acknowledged)
         # the effect in flight when the fault landed may be present or absent
         if term != "syntax" and n_committed < n_eff and kind_out != "value":
@@ -428,7 +475,7 @@ def execute(case):
         sim.steps = step
         sim.run_op(op)
         sim.check_all(step)
-        if len(sim.viol) > 20:
+        if len(sim.viol) > 20 or any("did not return" in v["detail"] for v in sim.viol):
             break
     res = {"violations": sim.viol[:20], "fired": sim.fired, "work": W.S.work - w0, "elapsed": W.S.work * W.S.tick,
            "digest": W.digest(), "n_ops": len(case["ops"]), "K": len(case["ctxs"])}
